@@ -28,6 +28,7 @@ class Ctx:
         self.rules_doc = OrderedDict()
         self.samples = []
         self.extra = {}
+        self.deferred_broken = []      # analysis-broken conditions that must not hide violations found by other rules
 
     # -- rule registration -------------------------------------------------------------
     def rule(self, rid, doc):
@@ -70,6 +71,12 @@ class Ctx:
     def sample(self, s):
         if len(self.samples) < 12:
             self.samples.append(s)
+
+    def broken_later(self, msg):
+        """Record an analysis-broken condition but let the remaining rules run: if they establish violations those are reported
+        (exit 1); otherwise the check ends as analysis broken (exit 2)."""
+        if msg not in self.deferred_broken:
+            self.deferred_broken.append(msg)
 
     def require(self, cond, msg):
         if not cond:
@@ -150,6 +157,8 @@ def run_property(prop, tier='quick', replay=None, quiet=False):
                         f.access = a
         ctx = Ctx(prop, tier, tus, skipped)
         mod.check(ctx)
+        if ctx.deferred_broken:
+            broken = '; '.join(ctx.deferred_broken)
     except AnalysisBroken as e:
         broken = str(e)
     except Exception:
